@@ -35,6 +35,7 @@ class C09(Prop):
                 "NV.C09.failing_cleanup_loses_reset_state", "NV.C09.cleanup_restores_reset_state",
                 "NV.C09.preload_visits_every_file", "NV.C09.preload_epilog_error_loads_nothing", "NV.C09.judge_preload_phase",
                 "NV.C09.preload_keeps_fresh", "NV.C09.backend_total_after_preload", "NV.C09.preloadFiles_visits_all",
+                "NV.C09.judge_preload_clause", "NV.C09.runFull_block_start", "NV.C09.startup_good_start",
                 "NV.C09.judge_crash_clause", "NV.C09.judge_report_clause", "NV.C09.judge_exit_present", "NV.C09.judge_cycles_clause", "NV.C09.runFull_block",
                 "NV.C09.backend_total", "NV.C09.backend_total_prefix", "NV.C09.freed_conn_never_used_run",
                 "NV.C09.hooks_keep_invariant", "NV.C09.runHook_ok", "NV.C09.errorHandler_same", "NV.C09.cmh_flags",
@@ -66,7 +67,7 @@ class C09(Prop):
                   "error-context chain at its base; a stale entry of a batch is skipped and never shares an identity with a "
                   "record accepted later (`batch_any_order_good`, `stale_event_skipped`, "
                   "`pending_entry_older_than_any_accept`); only the failing heart beat removed; pending tasks of others "
-                  "kept by the error path; oracle clauses crash / report / cycle markers / exit proved for all histories. "
+                  "kept by the error path; oracle clauses crash / report / cycle markers / exit / preload proved for all histories. "
                   "The model is tied to the source by 60 obligations (incl. 21 bridging lemmas over text regenerated from "
                   "the C source on every run) and by running the real backend() loop (loopback TCP clients, console pipe, "
                   "virtual time, events of one poll delivered in scripted order by the interposed poller, scripted failing "
@@ -97,7 +98,7 @@ class C09(Prop):
                    "input_to armed from net_dead / call_out / heart_beat (inherited command_giver)",
                    "an object destructed by its own reset() when its clean_up is due (the C code applies clean_up to it)",
                    "console on a real tty (reconnect path); the harness console is a pipe, where removal means shutdown",
-                   "oracle clauses other than crash / report / cycle markers / exit are judged per trace, not proved for all histories"]
+                   "oracle clauses other than crash / report / cycle markers / exit / preload are judged per trace, not proved for all histories"]
 
     # ---- tie: constants that are literals in the source ---------------------
     def gen_extra(self, ctx, bdir):
